@@ -730,6 +730,10 @@ func drive(o hx.RunOpts) error {
 	} else if err := runCase(b, "infs il-corpus", corpusLockstep); err != nil {
 		return fmt.Errorf("infs commit: %w", err)
 	}
+	// an update-mode encoder written to but not closed (outside C31_update_replaces), then closed
+	if err := runCase(newMem(), "mem upd-unclosed-corpus", corpusUnclosedUpdate); err != nil {
+		return err
+	}
 	// the zero-key witness (finding C31-F3, fixed by 7fc80460)
 	if err := runCase(newMem(), "mem il-zerokey-corpus", corpusZeroKey); err != nil {
 		return err
